@@ -325,11 +325,13 @@ def selection_empty(sel, n):
     return len(range(n)[slice(*(x[0] if x else None for x in (sel['a'], sel['b'], sel['c'])))]) == 0
 
 
-def make_selector(rng, n, Slice):
+def make_selector(rng, n, Slice, negative=False):
     k = rng.random()
     if k < 0.7:
         a, b = [rng.choice([None, None, rng.randint(-n - 1, n + 1)]) for _ in range(2)]
         c = rng.choice([None, 1, 2, 3, 4, max(1, n)])
+        if negative and rng.random() < 0.3:
+            c = rng.choice([-1, -1, -2, -3, -max(1, n)])          # Python slice semantics: the frames in reverse order
         if rng.random() < 0.9 and len(range(n)[slice(a, b, c)]) == 0:
             a = None if rng.random() < 0.5 else 0
             b = None
@@ -470,7 +472,7 @@ def run(ctx):
                 gate = None
                 if ri == 0 and fi % 5 == 0:
                     gate = rng.choice([k for k in conv if k != fmt])       # another format's converter on this file
-                sel, selobj = make_selector(rng, rng.choice(passes)['n'], Slice)
+                sel, selobj = make_selector(rng, rng.choice(passes)['n'], Slice, negative=(fmt == 'RP66V1' and gate is None))
                 pool = sorted({n for p in passes for n in p['names'][1:]})
                 if rng.random() < 0.35 or not pool:
                     req = []
@@ -611,8 +613,8 @@ def run(ctx):
                         'X values unique per pass and exactly representable; formats with >= 1 decimal where X has halves/eighths',
                         'channel names without spaces inside; LIS channels are not dipmeter sub-channel codes',
                         'an empty selection may be reported as a failed conversion or a file without rows',
-                        'slice steps >= 1: the selector property (C15) and the LIS frame loader define positive steps only; with a negative step the RP66V1 '
-                        'converter writes the frames in reverse order, the LIS and BIT converters do not support it (not judged)']
+                        'negative slice steps: judged for the RP66V1 converter (the frames in reverse order, STRT / STOP / STEP of the rows as written); '
+                        'the LIS frame loader and the BIT converter define positive steps only (not judged there)']
     ctx.explanation = ('TLC decides which converter designs refine ToLasAbs (and refutes the as-found ones); real conversions of generated '
                        'RP66V1/LIS/BIT files validated as traces; printed values vs recorded content; outputs through LASRead')
 
